@@ -1,4 +1,12 @@
-"""C33 — generated responses match the operation's shape.
+"""X02 (beyond the listed properties) — ResponseBuilder::with_partial_data.
+
+The flow of C33 with a partial response given to the builder: a first response is generated, pruned at random to a
+partial response (objects lose keys, lists are kept), and a second response is generated over it.  TLC requires the
+shape (ResponseConforms), reproduction by execution, and Response!Covers: wherever the overlay has a value at a
+position of the response, the response carries it (leaves verbatim, lists with the overlay's length).
+
+(C33's own description follows.)
+C33 — generated responses match the operation's shape.
 
 Response.tla states what a response for an operation must look like, over the operation / value representation and
 CollectFields of Execution.tla: exactly the response keys collected for the concrete type of each object, never null
@@ -20,15 +28,35 @@ import vlib
 FIELDS = ("schema", "kind", "sels", "fragments", "data", "executed", "reproduced", "execErrors", "crash", "overlay")
 
 
+def nested_list_of_objects(v, depth=0):
+    if isinstance(v, list):
+        return any(nested_list_of_objects(x, depth + 1) for x in v)
+    if isinstance(v, dict):
+        return depth >= 2 or any(nested_list_of_objects(x, 0) for x in v.values())
+    return False
+
+
+def l_ok(r, rows, bad):
+    badlines = {b[0] for b in bad}
+    return (rows.index(r) + 1) not in badlines
+
+
+def cause_of(row, f):
+    # overlaid_value recurses into one list level only: below a nested list the overlay is echoed verbatim
+    if f in ("X02-shape", "X02-not-reproduced-by-execution") and nested_list_of_objects(row.get("overlayRaw")):
+        return "overlay-covers-nested-list-of-objects"
+    return "other"
+
+
 def run(chk):
     raw = os.path.join(chk.work, "resp.ndjson")
     schemas = os.path.join(chk.work, "schemas.ndjson")
-    vlib.vh(["resp-record", "--seed", chk.seed, "--count", 2500 if chk.quick else 120000, "--schemas-out", schemas], stdout_path=raw, timeout=7000)
+    vlib.vh(["resp-record", "--overlay", "--seed", chk.seed, "--count", 1500 if chk.quick else 60000, "--schemas-out", schemas], stdout_path=raw, timeout=7000)
     rows = list(vlib.read_ndjson(raw))
     bad = vlib.trace_validate_parallel(chk, "Trace_Response", "Trace_Response.cfg", [{k: r[k] for k in FIELDS} for r in rows], parts=10,
                                        env={"SCHEMAS": schemas}, timeout=7000)
     # canary: drop one key of a conforming object, and make a non-null list null
-    g = next(r for r in rows if r["data"][0] == "obj" and len(r["data"][1]) >= 2 and not r["crash"])
+    g = next(r for r in rows if r["data"][0] == "obj" and len(r["data"][1]) >= 2 and not r["crash"] and l_ok(r, rows, bad))
     g = {k: g[k] for k in FIELDS}
     c1 = dict(g)
     c1["data"] = ["obj", g["data"][1][1:]]
@@ -39,17 +67,17 @@ def run(chk):
     vlib.write_ndjson(can, [g, c1, c2])
     cb = vlib.trace_validate(chk, "Trace_Response", "Trace_Response.cfg", can, 3, timeout=600, xmx="2g", env={"SCHEMAS": schemas})
     got = {b[0]: set(b[1]) for b in cb}
-    if 1 in got or got.get(2) != {"C33-shape"} or got.get(3) != {"C33-not-reproduced-by-execution"}:
+    if 1 in got or got.get(2) != {"X02-shape"} or got.get(3) != {"X02-not-reproduced-by-execution"}:
         chk.canary_failed.append("canary (a response key dropped / reproduction flag cleared): got %s" % cb)
     seen = set()
     for l, fails in bad:
         row = rows[l - 1]
         for f in sorted(fails):
-            key = (f, row["schema"], row["source"])
+            key = (f, cause_of(row, f), row["schema"])
             if key in seen:
                 continue
             seen.add(key)
-            chk.violation({"class": f, "schema": row["schema"], "source": row["source"]},
+            chk.violation({"class": f, "cause": cause_of(row, f), "schema": row["schema"], "source": row["source"]},
                           {"operation": row["text"], "data": row.get("raw"), "minList": row["minList"], "maxList": row["maxList"],
                            "errors": row.get("errorsText"), "panic": row.get("panic")})
     chk.cov["traces_validated_against_impl"] = len(rows)
